@@ -3,9 +3,10 @@
 # Does the translated-source tie ALONE (no input generated, no binary built) notice a code change? Applies the patch in the scratch
 # worktree, regenerates every Spec/*SrcGen.lean from it (VERIF_REPO), builds the given property module, restores the generated files
 # and the worktree. Prints TRANSLATE-FAIL(<spec>), BUILD-ERRORS: <n> or GEN-UNCHANGED.
-WT=$1; P=$2; MOD=$3
+WT=$(realpath "$1"); P=$(realpath "$2"); MOD=$3
+ROOT=$(cd "$(dirname "$0")/.." && pwd)
 cd "$WT" && git checkout -q -- . && git apply "$P" || { echo APPLYFAIL; exit 2; }
-cd "$(dirname "$0")/.."
+cd "$ROOT"
 BAK=$(mktemp -d); cp lean/FastPasta/Spec/*SrcGen.lean "$BAK"/
 fail=0
 for pair in words:WordsSrcGen rdh:RdhSrcGen payload:PayloadSrcGen stateful:StateSrcGen trigstats:TrigSrcGen lanechecks:LaneSrcGen alpidestats:AlpStatsSrcGen scanner:ScanSrcGen linkval:LinkSrcGen linkrdh:LinkRdhSrcGen; do
